@@ -265,7 +265,7 @@ def _is_unset(x):
 
 @st.composite
 def cases(draw):
-    base = draw(C8.cases())
+    base = draw(C8.cases(null_hazards=("argument", "directive")))
     spec, mode = base["spec"], base["mode"]
     eff = H.sdl_view(GS.Spec(spec)) if mode == "sdl" else GS.Spec(spec)
     req = base["request"]
